@@ -6,7 +6,7 @@
    * `_MonomorphizeVisitor._visit_function`: the function's declared context
      becomes `ctx` when it has none; a declared context is kept (it overrides
      any caller context anyway) and the strategy raises unless the requested
-     one is equivalent to it -- `None` here;
+     one `is_equiv` to it (same format) -- `None` here;
    * the argument annotations are merged with the requested types; annotations
      have no run-time meaning in the interpreter (arguments are not rounded or
      checked at entry, Sem.v `call`), so the body and the parameters are unchanged.
@@ -19,10 +19,26 @@ From Coq Require Import ZArith List Bool String.
 From FpyV Require Import Num.RealFloat Num.Float Num.CtxDef Lang.Syntax Lang.Values.
 Import ListNotations.
 
+(* Context.is_equiv: the two contexts have the same FORMAT (the same set of representable values);
+   rounding mode, overflow mode and the stochastic-rounding parameter are not compared.  Modelled
+   for the real, multi-precision float and EFloat/IEEE families; equality of contexts otherwise. *)
+Definition same_format (a b : ctx) : bool :=
+  match a, b with
+  | CReal, CReal => true
+  | CMPFloat p _ _ sp, CMPFloat p' _ _ sp' =>
+      (p =? p')%Z && Bool.eqb (sp_enable_nan sp) (sp_enable_nan sp') && Bool.eqb (sp_enable_inf sp) (sp_enable_inf sp')
+  | CMPSFloat p e _ _ sp, CMPSFloat p' e' _ _ sp' =>
+      (p =? p')%Z && (e =? e')%Z && Bool.eqb (sp_enable_nan sp) (sp_enable_nan sp')
+      && Bool.eqb (sp_enable_inf sp) (sp_enable_inf sp')
+  | CEFloat es nb ei nk eo _ _ _ _ _, CEFloat es' nb' ei' nk' eo' _ _ _ _ _ =>
+      (es =? es')%Z && (nb =? nb')%Z && Bool.eqb ei ei' && nankind_eqb nk nk' && (eo =? eo')%Z
+  | _, _ => ctx_eqb a b
+  end.
+
 Definition mono (c : ctx) (fn : func) : option func :=
   match f_ctx fn with
   | None => Some (Func (f_params fn) (Some c) (f_body fn))
-  | Some c0 => if ctx_eqb c0 c then Some fn else None
+  | Some c0 => if same_format c0 c then Some fn else None
   end.
 
 (* ---------------------------------------------------------------- close *)
